@@ -1736,3 +1736,7 @@ mod tests {
         );
     }
 }
+
+#[cfg(all(test, feature = "verif"))]
+#[path = "/verif/harness/sequencer/mempool_mc.rs"]
+mod verif_mempool;
